@@ -156,13 +156,24 @@ def compare_keys(job, refine=1):
             out.append({"key": code_key, "component": [int(x) for x in i], "got": float(np.asarray(got)[i]) if np.ndim(err) else float(got),
                         "exact": str(oracle[field][int(np.ravel_multi_index(i, np.shape(ref)))] if np.ndim(err) else oracle[field][0]),
                         "maxerr": float(err.max()), "scale": scale, "nbad": nbad, "ncomp": int(np.size(ref))})
+    # another AurelCore on a grid of the same shape (the next time slice, another resolution study) computes the same large
+    # quantities in between: instances share nothing
+    if refine == 1 and first and not (opts or {}).get("_pre"):
+        try:
+            other, _, _ = build_instance(case, oracle, order, probe, opts, refine=2)
+            for k in list(first)[:6]:
+                if k in rel.data and np.ndim(rel.data[k]) >= 5:
+                    other[k]
+        except Exception:
+            pass
     # final re-read: nothing that was returned (and is still cached) may have been changed by a later request
     if refine == 1:
         for k, v0 in first.items():
             if k in rel.data:
                 v1 = np.asarray(rel[k])[(...,) + idx]
                 if np.shape(v1) != np.shape(v0) or not np.array_equal(v1, v0, equal_nan=True):
-                    out.append({"key": k, "error": "CachedValueChanged: the cached entry no longer is what this request returned the first time "
+                    out.append({"key": k, "error": "CachedValueChanged: the cached entry no longer is what this request returned the first time (later requests on this instance, or "
+                                                   "the same quantity computed by another instance on a grid of the same shape, changed it) "
                                                    f"(max abs change {float(np.nanmax(np.abs(v1 - v0))) if np.shape(v1) == np.shape(v0) else 'shape'})"})
     if out and refine == 1:
         bad_keys = [k for k in keys if k[0] in {m["key"] for m in out if "maxerr" in m}]
